@@ -10,7 +10,7 @@ D=$(mktemp -d /tmp/vr.XXXXXX)
 trap 'rm -rf "$D"' EXIT
 mkdir -p "$D/src"
 cp -r /repo/src/. "$D/src/"
-( cd "$D" && patch -s -p1 $REV < "$PATCH" ) || { echo "patch failed"; exit 2; }
+( cd "$D" && patch -s -F0 -p1 $REV < "$PATCH" ) || { echo "patch failed"; exit 2; }
 for c in "$@"; do
   VERIF_REPO=$D python3 /verif/vcheck.py $c --tier ${TIER:-quick} 2>&1 | grep -E "VIOLATION|KNOWN-FINDING|INCONCLUSIVE|key :|what:|tier=" | head -${LINES_MAX:-12}
 done
